@@ -202,8 +202,13 @@ class Obj(Value):
         return 'Obj(%s)' % self.ci.qual
 
 
+def _concrete(v):
+    return isinstance(v, Const) or (isinstance(v, Tup) and all(_concrete(x) for x in v.items))
+
+
 class DictV(Value):
     default_factory = None
+    strict_keys = False     # True: a key that is not structurally one of the stored keys is a KeyError (memo dicts of the DEP audit)
     open = False            # keys that are not followed were looked up / stored (a defaultdict filled under unknown keys): its key set is unknown
 
     def __init__(self):
@@ -1962,6 +1967,11 @@ class Interp:
                     v = self.call_value(fac, [], {}, node, None)          # a defaultdict fills the missing entry
                     o.set(idx, v)
                     return v
+                if not o.strict_keys and not _concrete(idx) and all(_concrete(k) for k, _ in o.entries) and o.entries:
+                    # a table with constant keys looked up under a value that is not a constant (a flag computed from an argument):
+                    # which entry is fetched is not decided -- the domain may say what any of them gives, else the value is not followed
+                    r = self.dom.subscript(o, idx, node)
+                    return r if r is not None else Unknown('dict lookup with a key that is not decided')
                 raise AbsRaise('KeyError', node)
             return v
         if isinstance(o, Tup):
